@@ -27,21 +27,31 @@ Fixpoint cmp (total : nat) (s : st) (evs : list ev) (os : list (option obs)) (i 
   | _, _ => 799
   end.
 
-(* ---- oracle, on the observations alone ---- *)
-Definition oracle_obs (total : nat) (o : obs) : nat :=
-  if negb ((o_gcd o <=? o_k o) && (o_k o <=? o_pseq o)) then 101                  (* the log is acknowledged / collected beyond the stored sequence *)
-  else if negb (forallb (fun n => if n <=? o_pseq o then ocount o n =? 1 else ocount o n <=? 1) (upto (o_la o))) then 102
-                                                                                      (* an entry at or below the stored sequence is missing, or an entry is stored twice *)
+(* ---- oracle, on the observations alone (and the positions of the entries that were appended undecodable) ---- *)
+Fixpoint bad_of (evs : list ev) (n : nat) : list nat :=
+  match evs with
+  | [] => []
+  | Append _ :: r => bad_of r (S n)
+  | AppendBad :: r => S n :: bad_of r (S n)
+  | _ :: r => bad_of r n
+  end.
+Definition oracle_obs (badl : list nat) (total : nat) (o : obs) : nat :=
+  let isgood n := negb (memb n badl) in
+  if negb ((o_gcd o <=? o_k o) && forallb (fun n => negb (isgood n) || (o_k o <? n) || (n <=? o_pseq o)) (upto (o_la o))) then 101
+                                   (* the log is collected beyond its acknowledged position, or acknowledged beyond the stored sequence over an entry that carries rows *)
+  else if negb (forallb (fun n => if isgood n then (if n <=? o_pseq o then ocount o n =? 1 else ocount o n <=? 1) else ocount o n =? 0) (upto (o_la o))) then 102
+                                   (* an entry at or below the stored sequence is missing, or an entry is stored twice *)
   else if negb (match o_unresolved o with [] => true | _ => false end) then 103    (* flushed data that the metadata does not resolve to its name *)
   else 0.
 Fixpoint first_nz (l : list nat) : nat := match l with [] => 0 | x :: r => if x =? 0 then first_nz r else x end.
-(* at the end of a history (crash, full replay, flush): everything appended is stored exactly once *)
-Definition oracle_final (total : nat) (os : list (option obs)) : nat :=
+(* at the end of a history (crash, full replay, flush): everything appended that carries rows is stored exactly once *)
+Definition oracle_final (badl : list nat) (total : nat) (os : list (option obs)) : nat :=
   match rev os with
-  | Some o :: _ => if forallb (fun n => ocount o n =? 1) (upto total) && (o_pseq o =? total) then 0 else 104
+  | Some o :: _ => if forallb (fun n => if memb n badl then ocount o n =? 0 else (ocount o n =? 1) && (n <=? o_pseq o)) (upto total) then 0 else 104
   | _ => 0
   end.
 Definition check_hist (disc : bool) (total : nat) (evs : list ev) (os : list (option obs)) : nat * nat :=
+  let badl := bad_of evs 0 in
   ((if Bool.eqb (run_ok init evs) disc then cmp total init evs os 0 else 800),
-   (let c := first_nz (map (fun o => match o with Some ob => oracle_obs total ob | None => 0 end) os) in
-    if c =? 0 then oracle_final total os else c)).
+   (let c := first_nz (map (fun o => match o with Some ob => oracle_obs badl total ob | None => 0 end) os) in
+    if c =? 0 then oracle_final badl total os else c)).
